@@ -294,8 +294,8 @@ class Matcher:
             if k == 'nest':
                 stack = self.push((t[2], mode, ind + t[1], fl), rest)
                 continue
-            if k in ('align', 'hang'):
-                body = t[1] if k == 'align' else t[2]
+            if k in ('align', 'hang', 'lazy'):
+                body = t[2] if k == 'hang' else t[1]
                 if self.forcing and fl[0] > 0 and not fl[3] and hoists_ab(body):
                     # a lazily evaluated body is normalised when the engine reaches it - also in the look-ahead that decides an enclosing
                     # flat GROUP: an always_break anywhere in it is hoisted to its START, so the look-ahead meets it before any hardline of
@@ -303,7 +303,7 @@ class Matcher:
                     # Flat fill items are left out: a separator is not always examined (see relax) and Fill.normalize shifts positions.
                     self.dead.add(key)
                     return False
-                stack = self.push((body, mode, self.st.col[pos] + (0 if k == 'align' else t[1]), fl), rest)
+                stack = self.push((body, mode, ind if k == 'lazy' else self.st.col[pos] + (0 if k == 'align' else t[1]), fl), rest)
                 continue
             if k == 'ann':
                 if pos < len(items) and items[pos][0] == 'push' and _same_label(items[pos][1], t[1]):
@@ -423,6 +423,10 @@ def would_fit(content, ind_g, rest, col, W, R, smart):
                 work.append((c, mode, ind, 0))
         elif k == 'nest':
             work.append((t[2], mode, ind + t[1], 0))
+        elif k == 'lazy':
+            if hoists_ab(t[1]):
+                return 'forced'
+            work.append((t[1], mode, ind, 0))
         elif k == 'align':
             # a lazily evaluated document: when the engine reaches it, an always_break inside is hoisted to its start
             if hoists_ab(t[1]):
